@@ -19,6 +19,8 @@ def gen_cases(rng, n):
             cases.append(drv.gen_case(rng, circuit_friendly=True))
         elif r < 0.2:
             cases.append(drv.gen_cumulative_wide(rng))
+        elif r < 0.26:
+            cases.append(drv.gen_no_overlap_windows(rng))
         else:
             cases.append(drv.gen_case(rng))
     return cases
